@@ -482,16 +482,17 @@ as `m` (`Same`), then `Codec.ProtoToJSON m` succeeds with the bytes it writes fo
 `Codec.JSONToProto` maps them to `m'`. (`hd`: `m'` is not nested deeper than `m`, so the fuel the
 encoder model takes for `m` is enough for `m'`.) -/
 theorem roundtrip_same (c : Cfg) (hs : c.env.flat = true) (L : OracleLaws c.O)
-    (hC : c.env.noAny = true ∨ ChunkLaws c.O) (hA : c.protoToAny = false ∨ c.env.noJ5Any = true)
+    (hC : c.env.noAny = true ∨ ChunkLaws c.O)
     (root : String) (m m' : Fields)
     (hsame : Same c.env (.object root) (.msg m) (.msg m') ∨
       Same c.env (.oneof root) (.msg m) (.msg m'))
     (hok : valOk c.env c.O (.object root) (.msg m') = true ∨
       valOk c.env c.O (.oneof root) (.msg m') = true)
-    (hd : depthFields m' ≤ depthFields m) :
+    (hd : depthFields m' ≤ depthFields m)
+    (hM : modeOkF c.protoToAny (6 * (depthFields m + 1) + 9) c.anyDepth m' = true) :
     ∃ bs, encodeBytes c.env c.O root (.msg m) = .ok bs ∧ decodeBytes c root bs = .ok m' := by
-  obtain ⟨t, ht, hdec⟩ := roundtrip_tree_flat_fuel c hs L hA root m' hok
-    (6 * (depthFields m + 1) + 9) (by omega)
+  obtain ⟨t, ht, hdec⟩ := roundtrip_tree_flat_fuel c hs L root m' hok
+    (6 * (depthFields m + 1) + 9) (by omega) hM
   have henc : encodeTree c.env c.O root (.msg m) = .ok t := by
     unfold encodeTree encFuel
     simp only [PVal.depth]
@@ -610,14 +611,16 @@ flattened sub-messages that hold no leaf) is representable: encoding `m` succeed
 bytes yields exactly `canonFlat m`. (`hsort`: the stores on the way to the leaves have strictly
 increasing field numbers — what a protobuf message is.) -/
 theorem roundtrip_canon (c : Cfg) (hs : c.env.flat = true) (L : OracleLaws c.O)
-    (hC : c.env.noAny = true ∨ ChunkLaws c.O) (hA : c.protoToAny = false ∨ c.env.noJ5Any = true)
+    (hC : c.env.noAny = true ∨ ChunkLaws c.O)
     (root : String) (props : List PropDef) (hfind : c.env.find root = some (.object props))
     (m : Fields) (hsort : ∀ e ∈ leafEntries c.env props, SortedAlong e.1 m)
-    (hok : valOk c.env c.O (.object root) (.msg (canonFlat c.env props m)) = true) :
+    (hok : valOk c.env c.O (.object root) (.msg (canonFlat c.env props m)) = true)
+    (hM : modeOkF c.protoToAny (6 * (depthFields m + 1) + 9) c.anyDepth
+      (canonFlat c.env props m) = true) :
     ∃ bs, encodeBytes c.env c.O root (.msg m) = .ok bs ∧
       decodeBytes c root bs = .ok (canonFlat c.env props m) :=
-  roundtrip_same c hs L hC hA root m (canonFlat c.env props m)
+  roundtrip_same c hs L hC root m (canonFlat c.env props m)
     (Or.inl (same_canonFlat c.env root props hfind m hsort)) (Or.inl hok)
-    (depthFields_restrictP m _)
+    (depthFields_restrictP m _) hM
 
 end J5V.Codec
